@@ -225,6 +225,12 @@ impl Handle {
         g.steps += self.local_steps.replace(0);
         if let Some(to) = Self::pick_other(&mut g, self.tid) {
             g = self.switch_to(g, to);
+        } else if g.opts.align && g.rng.chance(1, 4) {
+            // only parked threads are left to switch to and no partner has shown up for them: let one go
+            // (a thread with one long operation would otherwise keep every other thread parked)
+            if let Some(to) = Self::pick_other_from(&mut g, self.tid, true) {
+                g = self.switch_to(g, to);
+            }
         }
         self.redraw_gap(&mut g);
     }
